@@ -154,6 +154,30 @@ def _b_body(d, i, x, style):
     if inc is None and exc is None:
         check(got == kp.dumps(doc, encoding=kp.Encoding.eKern, spine_types=heads, include=set(TC), exclude=set()),
               'include=all / exclude=nothing is not the identity')
+    # the caller's own container, changed in place between two calls: the second call sees the new content
+    if style in (0, 1):
+        for side, names in (('include', inc), ('exclude', exc)):
+            if names is None:
+                continue
+            box = conv(names)
+            kw2 = dict(kw)
+            kw2[side] = box
+            kp.dumps(doc, encoding=kp.Encoding.eKern, spine_types=heads, **kw2)
+            extra = TC.BARLINES if 'BARLINES' not in names else TC.LYRICS
+            if isinstance(box, set):
+                box.add(extra)
+            else:
+                box.append(extra)
+            second = kp.dumps(doc, encoding=kp.Encoding.eKern, spine_types=heads, **kw2)
+            kw3 = dict(kw)
+            kw3[side] = type(box)(box)
+            ref = kp.dumps(doc, encoding=kp.Encoding.eKern, spine_types=heads, **kw3)
+            names2 = list(names) + [extra.name]
+            sel2 = model_valid(names2 if side == 'include' else inc, names2 if side == 'exclude' else exc)
+            exp2 = D.expected('ekern', keep=lambda name: name in sel2)
+            check(cells.rows_equal(cells.parse_grid(second), exp2),
+                  f'{side}={names} exported, then {extra.name} added to the SAME container and exported again: {cells.parse_grid(second)}, expected {exp2}')
+            check(second == ref, f'{side}: a container changed in place between two calls gives {second!r}, a fresh container with the same members {ref!r}')
     return True
 
 
@@ -224,7 +248,7 @@ OBLIGATIONS = [
        shard_of=_shard_a, shards={'quick': 28, 'thorough': 28}, budget_s={'quick': 170, 'thorough': 1800}, untrace=UNTRACE,
        witnesses=[{'d': 0, 'b': [True] * N}, {'d': 1, 'b': [i % 2 == 0 for i in range(N)]}], min_confirmed=500,
        symbolic='token_categories: 37 symbolic booleans (all 2^37 selections per document)', enumerated='document selector',
-       bounds={'quick': '7 mini documents (<= 9 categories asked each; kern/text/dynam/harm/fing/mxhm/unknown spines; split+join; chord; signatures; tandems; comments)',
+       bounds={'quick': '9 mini documents (<= 9 categories asked each; two with the same text under different categories in one document; kern/text/dynam/harm/fing/mxhm/unknown spines; split+join; chord; signatures; tandems; comments)',
                'thorough': 'same pool'}, describe=_desc_a),
     Ob(id='C05.b', fn=ob_b, title='public include/exclude: every single category and pair, None, three argument styles',
        shard_of=lambda d, i, x, style: i + x, shards={'quick': 16, 'thorough': 16}, budget_s={'quick': 170, 'thorough': 1800},
